@@ -92,7 +92,7 @@ func marshal(val cty.Value, ty cty.Type, path cty.Path, enc *msgpack.Encoder) er
 				} else if fv, acc := bf.Float64(); acc == big.Exact && !bf.IsInt() {
 					err = enc.EncodeFloat64(fv)
 				} else {
-					err = enc.EncodeString(bf.Text('f', -1))
+					err = enc.EncodeString(numberText(bf))
 				}
 			}
 			if err != nil {
@@ -209,4 +209,21 @@ func marshalDynamic(val cty.Value, path cty.Path, enc *msgpack.Encoder) error {
 		Path:  path,
 	}
 	return enc.Encode(&dv)
+}
+
+// numberText returns decimal text for a number that has to travel as a
+// string. The decoder parses that text at 512-bit precision, so the shortest
+// text that is unique at the number's own precision is only faithful when
+// that precision is at least as large; a number held at a lower precision
+// (a large float64, the quotient of two integers, ...) is written with its
+// exact decimal expansion instead, so that it comes back as the same number.
+func numberText(bf *big.Float) string {
+	if bf.Prec() >= 512 {
+		return bf.Text('f', -1)
+	}
+	digits := int(bf.MinPrec()) - bf.MantExp(nil)
+	if digits < 0 {
+		digits = 0
+	}
+	return bf.Text('f', digits)
 }
